@@ -279,7 +279,7 @@ package shimagent
 //@     forall(j, 0 <= j && j < len(ret(filter, f0, 1)),
 //@       (!(certBlob(blobid(asKey(ret(filter, f0, 1)[j]))) && parseOKid(blobid(asKey(ret(filter, f0, 1)[j])))) ||
 //@        (!(sha(blobid(asKey(ret(filter, f0, 1)[j]))) in dom(s.upstreamSSHCACertCache)) && !(s.noUpstreamSSHCACert && hiddenBlob(blobid(asKey(ret(filter, f0, 1)[j])))))) ==>
-//@       exists(i, 0 <= i && i < len(result0), akBlob(result0[i]) == blobid(asKey(ret(filter, f0, 1)[j]))))
+//@       exists(i, 0 <= i && i < len(result0), result0[i] == ret(filter, f0, 1)[j] || akBlob(result0[i]) == blobid(asKey(ret(filter, f0, 1)[j]))))
 //@   ensures [in-memory-certificates-stay-listed] (!old(s.locked) && ret(filter, f0, 2) == nil) ==>
 //@     forall(h#bytes, h in dom(s.certs), exists(i, 0 <= i && i < len(result0), akBlob(result0[i]) == blobid(asKey(s.certs[h]))))
 //@   loop 1:
@@ -304,5 +304,5 @@ package shimagent
 //@     invariant forall(j, 0 <= j && j <= rangeindex,
 //@       (!(certBlob(blobid(asKey(keysInAgent[j]))) && parseOKid(blobid(asKey(keysInAgent[j])))) ||
 //@        (!(sha(blobid(asKey(keysInAgent[j]))) in dom(s.upstreamSSHCACertCache)) && !(s.noUpstreamSSHCACert && hiddenBlob(blobid(asKey(keysInAgent[j])))))) ==>
-//@       exists(i, 0 <= i && i < len(keys), akBlob(keys[i]) == blobid(asKey(keysInAgent[j]))))
+//@       exists(i, 0 <= i && i < len(keys), keys[i] == keysInAgent[j] || akBlob(keys[i]) == blobid(asKey(keysInAgent[j]))))
 //@     invariant forall(h#bytes, h in dom(s.certs), exists(i, 0 <= i && i < len(keys), akBlob(keys[i]) == blobid(asKey(s.certs[h]))))
